@@ -55,6 +55,9 @@ const limit = byte('\n')
 func Read(rd io.Reader) (out []byte, deltams int32, err error) {
 	var deltaRead bool
 	var deltaBf []byte
+	// lineErr is set for a malformed line; the error is returned when the end of the line
+	// has been reached, so that the next call starts with the next line
+	var lineErr error
 
 	for {
 		b, errRd := read(rd)
@@ -62,17 +65,25 @@ func Read(rd io.Reader) (out []byte, deltams int32, err error) {
 			return nil, -1, errRd
 		}
 
-		if b == ' ' {
-			deltams, err = convertDelta(deltaBf)
-			if err != nil {
-				return
+		if b == limit {
+			if lineErr != nil {
+				return nil, -1, lineErr
 			}
-			deltaRead = true
+			return out, deltams, err
+		}
+
+		if lineErr != nil {
 			continue
 		}
 
-		if b == limit {
-			return out, deltams, err
+		if b == ' ' {
+			if deltaRead {
+				lineErr = fmt.Errorf("malformed line: more than one separator")
+				continue
+			}
+			deltams, lineErr = convertDelta(deltaBf)
+			deltaRead = true
+			continue
 		}
 
 		if deltaRead {
